@@ -55,6 +55,11 @@ def make_env(label):
 def make_backend(name, w, yield_events=False):
     if name == 'dict':
         from slimta.queue.dict import DictStorage
+        from engine.vloop import reset_mutable_defaults
+        reset_mutable_defaults(DictStorage)
+        # a second store of the same process, used before the one under test: two stores share nothing
+        other = DictStorage()
+        other.write(make_env('Z'), T0)
         return DictStorage(), None
     if name == 'shelf':
         # the documented persistent variant of the dict backend: real shelve.Shelf objects (every value is pickled on
